@@ -75,6 +75,9 @@ func (e *Env) az(gi int) string {
 // group's registration lag, Nodes whose instance is gone are collected.
 func (e *Env) Reconcile() {
 	now := time.Now()
+	if e.gcSeen == nil {
+		e.gcSeen = map[string]int{}
+	}
 	for gi := range e.Groups {
 		g := e.ASGOf(gi)
 		if g == nil {
@@ -101,7 +104,12 @@ func (e *Env) Reconcile() {
 		id := instanceIDOf(n.Spec.ProviderID)
 		inst, ok := e.AWS.Inst[id]
 		if ok && inst.State == "terminated" {
-			e.RemoveNodeAndPods(name)
+			// the cloud controller notices a vanished instance with some delay
+			e.gcSeen[name]++
+			if e.GCLag <= 0 || e.gcSeen[name] > e.GCLag {
+				e.RemoveNodeAndPods(name)
+				delete(e.gcSeen, name)
+			}
 		}
 	}
 }
